@@ -78,24 +78,37 @@ def lowest_bit_family(ctx):
                   required="equals the documented function of the lowest set bit for every value of widths 1..6 (bit-vector evaluation of the returned expression)")
 
 
-def mod_incr(ctx):
-    fn = Fn(ctx.repo, FUNCS, "mod_incr", "C36")
+def mod_incr(ctx, pid="C36"):
+    """Per configuration of mod_incr: for every modulus 1..16 that selects it (integer evaluation of the python-level
+    test), the returned expression agrees with (sig + 1) % mod for every sig < mod."""
+    from ..logic import evalt
+    from .modarith import shortcut_only_for_powers_of_two
+
+    ctx.use(FUNCS)
+    fn = Fn(ctx.repo, FUNCS, "mod_incr", pid)
     sig, mod = fn.param(0), fn.param(1)
-    rets = fn.facts(Return, lambda r: r.callid is None)
-    ctx.floor("C36", "mod_incr returns", len(rets), 2, fn.site)
-    for ex, r in rets:
+    covered = set()
+    n = 0
+    for ex in fn.exs:
+        rets = [r for r in ex.of(Return) if r.callid is None]
+        if len(rets) != 1:
+            raise AnalysisError(pid, fn.site, f"mod_incr: {len(rets)} returns in one configuration")
+        r = rets[0]
+        try:
+            mods = [m for m in range(1, 17) if all(bool(evalt(t, {mod: m})) == v for t, v in ex.config)]
+        except NotEvaluable as e:
+            raise AnalysisError(pid, r.site, f"mod_incr: cannot evaluate the branch test ({e})")
+        covered.update(mods)
+        if not mods:
+            continue
+        n += 1
         val = C27.strip_casts(ex, r.value)
-        pow2 = any(v for t, v in ex.config) if ex.config else False
-        g = fn.reach(Return, lambda x, v=r.value: x.value == v)
-        # which branch: reached when `not (mod & (mod - 1))` is true -> powers of two
-        is_pow2_branch = has("Q_x & (Q_m - 1)", val) and not has("Mux(Q_a, Q_b, Q_c)", val)
-        mods = [1, 2, 4, 8] if is_pow2_branch else [3, 5, 6, 7]
         ref = ("op", "%", ("op", "+", sig, ("c", 1)), mod)
-        check_agree(ctx, "C36.mod-incr", r.site, f"mod_incr[{'pow2' if is_pow2_branch else 'general'}]", val, ref, {mod: mods}, {sig: (0, ("op", "-", mod, ("c", 1)))}, "(sig + 1) mod `mod` for every sig < mod")
-        # the power-of-two branch must be guarded by the power-of-two test
-        if is_pow2_branch:
-            ok = len(ex.config) == 1 and pmatch("Q_m & (Q_m - 1)", ex.config[0][0]) == {"m": mod} and ex.config[0][1] is False
-            ctx.check(ok, "C36.mod-incr-guard", r.site, "mod_incr.pow2-guard", found=fstr(g), required="the masking shortcut is taken only when mod & (mod - 1) == 0")
+        check_agree(ctx, f"{pid}.mod-incr", r.site, f"mod_incr[mod in {mods}]", val, ref, {mod: mods}, {sig: (0, ("op", "-", mod, ("c", 1)))}, "(sig + 1) mod `mod` for every sig < mod")
+        if not has("Mux(Q_a, Q_b, Q_c)", val):
+            shortcut_only_for_powers_of_two(ctx, f"{pid}.mod-incr-guard", r.site, "mod_incr.pow2-guard", ex, mod)
+    ctx.check(covered == set(range(1, 17)), f"{pid}.mod-incr-total", fn.site, "mod_incr.coverage", found=f"moduli handled: {sorted(covered)}", required="every modulus 1..16 selects a configuration")
+    ctx.floor(pid, "mod_incr configurations", n, 2, fn.site)
 
 
 def reductions(ctx):
